@@ -25,6 +25,11 @@ THEOREMS = [
     'AbacusVerif.Fields.column_independent',
     'AbacusVerif.Fields.column_independent_pair',
     'AbacusVerif.Fields.no_request_dependent_failure_partial',
+    'AbacusVerif.Fields.no_request_dependent_failure',
+    'AbacusVerif.Fields.generated_wfFull',
+    'AbacusVerif.Fields.datamodel_provides',
+    'AbacusVerif.Fields.all_and_defaults_valid',
+    'AbacusVerif.Fields.snapshot_constructs',
     'AbacusVerif.Fields.setupFields_index_cols',
     'AbacusVerif.Fields.generated_wf',
     'AbacusVerif.Fields.generated_wf2',
@@ -415,6 +420,63 @@ def run_world(ctx, world, dts, entries, n_subsets, alone_all_modes, pairs):
                 flush_model(ctx, world, te, lm)
 
 
+# --------------------------------------------------------------------------- edge requests: the guard `validRequest`
+
+EDGE_FIXED = [
+    ('snap', False, '-', ['x_com', 'x_com']), ('snap', False, '-', ['N', 'N']), ('snap', False, 'A', ['npoutA', 'npoutA']),
+    ('snap', True, '-', ['N', 'N']), ('snap', True, '-', ['N_total', 'N_total']), ('snap', True, '-', ['haloindex', 'haloindex']),
+    ('snap', True, '-', ['N', 'N_total']), ('snap', True, 'A', ['npstartA_merge', 'npstartA_merge']),
+    ('snap', False, '-', []), ('snap', True, '-', []), ('snap', False, 'AB', []), ('snap', True, 'AB', []),
+    ('snap', False, '-', ['N_total']), ('snap', False, '-', ['foo']), ('snap', True, '-', ['foo']),
+    ('lc', True, '-', ['N', 'N']), ('lc', True, '-', ['x_com']), ('lc', True, '-', ['N_total']),
+    ('lc', True, '-', ['v_L2com_mainprog']), ('lc', True, 'A', []), ('lc', True, '-', ['x_L2com', 'x_L2com', 'x_com', 'x_com']),
+    ('lc', True, 'A', ['haloindex']), ('lc', True, '-', ['foo']), ('lc', True, '-', ['fooL2']),
+]
+
+
+def valid_line(world, fields, cleaned, sub):
+    req = 'list:' + (','.join(fields) if fields else '-')
+    ab = {'-': '-', 'A': 'A', 'B': 'B', 'AB': 'A,B'}[sub]
+    return 'valid %s %d %s %d' % (req, int(cleaned), ab, int(world.layout == 'lc'))
+
+
+def random_edge(rng, dts, world):
+    allnames = [r[0] for t in ('user_dt', 'clean_dt_progen', 'halo_lc_dt') for r in dts[t]] + ['foo', 'fooL2']
+    k = int(rng.integers(0, 5))
+    picks = [allnames[int(i)] for i in rng.integers(0, len(allnames), k)]
+    if picks and rng.random() < 0.5:
+        picks.append(picks[int(rng.integers(0, len(picks)))])        # a repeat
+    cleaned = bool(rng.integers(0, 2)) if world.layout != 'lc' else True
+    sub = subs_of(world)[int(rng.integers(0, len(subs_of(world))))] if rng.random() < 0.4 else '-'
+    return (world.layout, cleaned, sub, picks)
+
+
+def run_edges(ctx, worlds, dts, n_random):
+    """accept / reject: the real class, the model of the constructor and the guard of the theorem must agree"""
+    if ctx.driver is None or ctx.driver.error:
+        return
+    cases = [c for c in EDGE_FIXED]
+    for w in worlds.values():
+        for _ in range(n_random):
+            cases.append(random_edge(ctx.rng, dts, w))
+    for layout, cleaned, sub, fields in cases:
+        w = worlds[layout]
+        case = dict(layout=layout, catseed=w.catseed, cleaned=cleaned, subsamples=sub, fields=fields, edge=True)
+        status, cat = w.load(ctx, list(fields), cleaned, sub)
+        mres, vres = ctx.driver.query([model_line(w, list(fields), cleaned, sub), valid_line(w, fields, cleaned, sub)])
+        ctx.case(case, nontrivial=True)
+        ctx.count('edge:%s:%s' % (vres, 'loads' if status == 'ok' else 'raises'))
+        if mres.startswith('ok') != (status == 'ok'):
+            ctx.disagree('model vs real: accept/reject of an edge request', case, mres[:80],
+                         'loads' if status == 'ok' else repr(cat)[:200])
+        if vres == 'valid' and status != 'ok':
+            ctx.fail('a valid request raises %s' % type(cat).__name__, case, repr(cat)[:300], 'a catalog',
+                     key='c02:raises:%s' % type(cat).__name__)
+        if vres == 'invalid' and status == 'ok':
+            ctx.disagree('validRequest (the guard of no_request_dependent_failure) rejects a request the real code loads',
+                         case, 'invalid', cat.halos.colnames)
+
+
 def corpus_cases():
     from vcommon import CORPUS
     out = []
@@ -458,6 +520,7 @@ def run(ctx):
     rng = ctx.rng
     snap = World(ctx, 'snap0', 'snap', int(rng.integers(0, 2 ** 31)))
     lc = World(ctx, 'lc0', 'lc', int(rng.integers(0, 2 ** 31)))
+    run_edges(ctx, {'snap': snap, 'lc': lc}, dts, ctx.pick(12, 150))
     if ctx.quick:
         run_world(ctx, snap, dts, entries, n_subsets=45, alone_all_modes=False, pairs=False)
         run_world(ctx, lc, dts, entries, n_subsets=15, alone_all_modes=True, pairs=False)
